@@ -249,6 +249,11 @@ func (u *multiUpdateExecutor) buildBeforeImageSQL(args []driver.NamedValue, meta
 		if updateStmt.Order != nil {
 			return "", nil, fmt.Errorf("multi update SQL with orderBy condition is not support yet")
 		}
+		if updateStmt.Where == nil {
+			// the before image is selected by the union of the where conditions: without one the
+			// statement cannot be handled here (and Where.Restore below would dereference nil)
+			return "", nil, fmt.Errorf("multi update SQL without where condition is not support yet")
+		}
 
 		if undo.UndoConfig.OnlyCareUpdateColumns {
 			//select update columns
